@@ -11,7 +11,6 @@ import (
 	"vh/kit"
 	"vh/opgen"
 	"vh/oracle"
-	"vh/proj"
 	"vh/refexec"
 	"vh/univ"
 	"vh/vfrun"
@@ -52,6 +51,7 @@ func check(c Case) *vfrun.Failure {
 		vfrun.Label("discarded:override-unrepresentable-in-some-vector")
 		return nil
 	}
+	vfrun.Label("project:" + c.Project)
 	classify(c, ref)
 	return nil
 }
@@ -90,8 +90,7 @@ func classify(c Case, ref *refexec.Result) {
 }
 
 func gen(t *rapid.T) Case {
-	names := proj.Names()
-	c := Case{Project: rapid.SampledFrom(names).Draw(t, "project")}
+	c := Case{Project: kit.DrawProject(t)}
 	srvs, err := kit.Servers(c.Project)
 	if err != nil {
 		t.Fatalf("harness: %v", err)
@@ -112,5 +111,5 @@ func gen(t *rapid.T) Case {
 }
 
 func TestExec(t *testing.T) {
-	vfrun.Run(t, vfrun.Prop[Case]{Property: "C01", Name: "TestExec", Gen: gen, Check: check}, vfrun.N(16000, 600000))
+	vfrun.Run(t, vfrun.Prop[Case]{Property: "C01", Name: "TestExec", Gen: gen, Check: check}, vfrun.N(24000, 600000))
 }
